@@ -814,6 +814,10 @@ where
         }
 
         data.open_files[file_idx].dirty = true;
+        // From here on the file may change even if we fail part way through
+        // (e.g. when the disk fills up), so note the modification now.
+        data.open_files[file_idx].entry.attributes.set_archive(true);
+        data.open_files[file_idx].entry.mtime = self.time_source.get_timestamp();
 
         if data.open_files[file_idx].entry.cluster.0 < fat::RESERVED_ENTRIES {
             // file doesn't have a valid allocated cluster (possible zero-length file), allocate one
@@ -922,8 +926,6 @@ where
                 .unwrap();
             // Entry update deferred to file close, for performance.
         }
-        data.open_files[file_idx].entry.attributes.set_archive(true);
-        data.open_files[file_idx].entry.mtime = self.time_source.get_timestamp();
         Ok(())
     }
 
